@@ -47,6 +47,44 @@ pub fn cfg_to_toml_tls(cfg: &Cfg, port: u16, tls: bool) -> String {
             }
         }
     }
+    if let Some(us) = &mc.users {
+        for u in us {
+            s += &format!("\n[[users]]\nname = \"{}\"\nnick = \"{}\"\n", u.name, u.nick);
+            if let Some(p) = &u.password {
+                s += &format!("password = \"{}\"\n", p);
+            }
+            if let Some(m) = &u.mask {
+                s += &format!("mask = \"{}\"\n", m);
+            }
+        }
+    }
+    if let Some(chs) = &mc.channels {
+        let list = |v: &Option<std::collections::HashSet<String>>| -> String {
+            let mut x: Vec<String> = v.as_ref().map(|s| s.iter().cloned().collect()).unwrap_or_default();
+            x.sort();
+            format!("[ {} ]", x.iter().map(|m| format!("\"{}\"", m)).collect::<Vec<_>>().join(", "))
+        };
+        for c in chs {
+            s += &format!("\n[[channels]]\nname = \"{}\"\n", c.name);
+            if let Some(t) = &c.topic {
+                s += &format!("topic = \"{}\"\n", t);
+            }
+            s += "\n[channels.modes]\n";
+            let m = &c.modes;
+            for (k, v) in [("ban", &m.ban), ("exception", &m.exception), ("invite_exception", &m.invite_exception), ("founders", &m.founders), ("protecteds", &m.protecteds), ("operators", &m.operators), ("half_operators", &m.half_operators), ("voices", &m.voices)] {
+                if v.is_some() {
+                    s += &format!("{} = {}\n", k, list(v));
+                }
+            }
+            if let Some(k) = &m.key {
+                s += &format!("key = \"{}\"\n", k);
+            }
+            if let Some(l) = m.client_limit {
+                s += &format!("client_limit = {}\n", l);
+            }
+            s += &format!("moderated = {}\ninvite_only = {}\nsecret = {}\nprotected_topic = {}\nno_external_messages = {}\n", m.moderated, m.invite_only, m.secret, m.protected_topic, m.no_external_messages);
+        }
+    }
     s
 }
 
